@@ -353,8 +353,8 @@ theorem mem_putKeys {l : List Step} {k : Key} {v : Option Val} (h : Step.put k v
     · subst e; simp [putKeys]
     · cases s <;> simp [putKeys, ih e]
 
-theorem mirror_balanced (m : Store) {a d : List Step} (h : MirrorL a d)
-    (hfresh : ∀ k ∈ putKeys a, get m k = none) (k : Key) :
+theorem mirror_balanced (m : Store) {a d : List Step} (h : MirrorL a d) (k : Key)
+    (hfresh : k ∈ putKeys a → get m k = none) :
     CounterBalanced k a d ∨ SlotBalanced m k a d := by
   have hp := h.proj k
   obtain ⟨s1, s2, s3⟩ := hp.sides
@@ -380,7 +380,7 @@ theorem mirror_balanced (m : Store) {a d : List Step} (h : MirrorL a d)
         | bump k' x => simp [Step.isBump] at hb
         | put k' v =>
           simp [Step.key] at hkey; subst hkey
-          exact hfresh _ (mem_putKeys hmem)
+          exact hfresh (mem_putKeys hmem)
 
 /-! ### the plugin generators are mirrored -/
 
@@ -461,10 +461,10 @@ theorem mirror_counter {a d : List Step} (h : MirrorL a d) (k : Key) (hc : k.isC
   · intro s hs; rw [s1 s hs, (mem_proj hs).2, hc]
   · intro s hs; rw [s2 s hs, (mem_proj hs).2, hc]
 
-theorem mirror_slot (m : Store) {a d : List Step} (h : MirrorL a d)
-    (hfresh : ∀ k ∈ putKeys a, get m k = none) (k : Key) (hc : k.isCounter = false) :
+theorem mirror_slot (m : Store) {a d : List Step} (h : MirrorL a d) (k : Key)
+    (hfresh : k ∈ putKeys a → get m k = none) (hc : k.isCounter = false) :
     SlotBalanced m k a d := by
-  rcases mirror_balanced m h hfresh k with ⟨h1, _, _⟩ | h2
+  rcases mirror_balanced m h k hfresh with ⟨h1, _, _⟩ | h2
   · -- a counter-balanced non-counter key has no steps at all
     have hp := h.proj k
     obtain ⟨s1, s2, s3⟩ := hp.sides
